@@ -1484,6 +1484,13 @@ func (f *Flow) truthSet(v ssa.Value, at *ssa.BasicBlock, env Env, pk *Term, dept
 		return ISet{}, true
 	}
 	s, _ := f.Eval(pk, te)
+	// the refinement is exact only if the two outcomes split the values of pk:
+	// arithmetic that wraps around (tag-lo <= hi-lo) does not propagate back to pk
+	if fe, fok := f.refine(env, t, false); fok {
+		if sf, _ := f.Eval(pk, fe); sf == nil || s == nil || !s.Intersect(sf).Empty() {
+			return nil, false
+		}
+	}
 	return s, true
 }
 
